@@ -95,6 +95,7 @@ type siteRig struct {
 	limit       int                 // 0 = none
 	limitSub    int                 // nested scope /p/sub
 	subScope    string              // how the nested scope is written: /p/sub or /p/sub/
+	hasMatchers bool                // C19: rewrite / redir / browse, driven by request text
 	siblings    map[string][]string // static file -> encodings present
 
 	port         int
@@ -422,6 +423,7 @@ func runSite(mode string) sim.RigFunc {
 		}
 		r.hasTemplates = mode != "C18" && pick(25)
 		r.errVisible = r.hasErrors && !r.hasGzip && pick(20)
+		r.hasMatchers = mode == "C19" && pick(50)
 		siteText := func(host string, twin bool) string {
 			var b strings.Builder
 			fmt.Fprintf(&b, "http://%s:0 {\n\tbind 127.0.0.1\n\tsimnet v0\n\troot %s\n", host, r.root)
@@ -494,6 +496,13 @@ func runSite(mode string) sim.RigFunc {
 			}
 			if r.hasTemplates {
 				b.WriteString("\ttemplates /p\n")
+			}
+			if mode == "C19" && r.hasMatchers {
+				// directives whose matchers and targets are evaluated on request text
+				b.WriteString("\trewrite /p/rw {\n\t\tregexp ^/p/rw/(.*?)(/.*)?$\n\t\tto /p/x?from={1}&rest={2}&q={query}&e={>X-Evil}&c={~ck}\n\t}\n")
+				b.WriteString("\trewrite {\n\t\tif {>X-Evil} has x\n\t\tif {~ck} not_match ^v1$\n\t\tif {path} starts_with /p/cond\n\t\tif {?q} not_ends_with zz\n\t\tif {>Referer} not_has nothing\n\t\tif_op and\n\t\tto /p/y.html /p/{>X-Evil} /p/x\n\t}\n")
+				b.WriteString("\tredir 302 {\n\t\tif {path} is /p/rd\n\t\t/ /p/x?e={>X-Evil}&u={uri}&h={host}\n\t}\n")
+				b.WriteString("\tbrowse /static\n")
 			}
 			b.WriteString("\tprobe " + host[:1] + "\n}\n")
 			return b.String()
@@ -785,6 +794,17 @@ func (r *siteRig) hostileRequest(q *sreq) {
 	q.query = "q=" + []string{"%", "%zz", "%7B%7D", "{}", "a=b=c", "&&&", ";", strings.Repeat("%7B", 300)}[st.Draw(8)]
 	if st.Draw(3) == 0 {
 		q.path = []string{"/p/%2e%2e/x", "/p//./../p/x", "/p/%00", "/P/X", "/p/" + strings.Repeat("a/", 200), "/p/x%", "/p/{host}", "/p/%7Bhost%7D", "/secret%2Fx", "/p/auth%2fx"}[st.Draw(10)]
+	}
+	if r.hasMatchers && st.Draw(2) == 0 {
+		q.path = []string{"/p/rw/", "/p/rw/a/b", "/p/rw/%7B1%7D/{2}", "/p/rw/" + strings.Repeat("x/", 100), "/p/cond/x", "/p/cond", "/p/rd", "/static/", "/static/", "/static"}[st.Draw(10)]
+		if strings.HasPrefix(q.path, "/static") {
+			q.query = []string{"sort=name&order=desc", "sort=size&limit=-1", "limit=abc&offset=-5", "limit=99999999999999999999", "sort={host}&order=%00", "offset=3&limit=0"}[st.Draw(6)]
+			if st.Draw(2) == 0 {
+				q.hdrs = append(q.hdrs, [2]string{"Accept", "application/json"})
+			}
+			q.script.mode = "static" // the scripted handler passes it on: the directory listing answers
+		}
+		r.c.Probe("matcher-directive-request")
 	}
 	if st.Draw(6) == 0 {
 		// request targets that are not origin-form: the handlers see an empty or odd URL.Path
